@@ -308,7 +308,7 @@ def finding_queue_rotates_on_failure(kind_i: int, limit: int, n: int, mask: int)
 HF = r'''
 def get___I__(kind_i: int, variant: int, c1: int, c2: int) -> bool:
     """
-    pre: 0 <= kind_i <= 1 and 0 <= variant <= 4 and 0 <= c1 <= 6 and 0 <= c2 <= 6
+    pre: 0 <= kind_i <= 1 and 0 <= variant <= 4 and 0 <= c1 <= __C1MAX__ and 0 <= c2 <= __C2MAX__
     post: _
     """
     kind_i = pick(kind_i, 0, 1); variant = pick(variant, 0, 4); c1 = pick(c1, 0, 6); c2 = pick(c2, 0, 6)
@@ -323,20 +323,22 @@ def _key_from_replay(args, kwargs, replay_out):
 
 
 def _handler_names():
-    """Enumerate GET handlers from the live application route table."""
+    """Enumerate GET handlers from the live application route table: {name: number of parameters besides the request}."""
     import logging
     logging.disable(logging.CRITICAL)
     import pynmon.app as pa
     if not any(hasattr(r, "original_router") for r in pa.app.routes):
         pa.setup_routes()
-    names = set()
+    import inspect
+    names = {}
     for r in pa.app.routes:
         subs = r.original_router.routes if hasattr(r, "original_router") else [r]
         for sr in subs:
             ep = getattr(sr, "endpoint", None)
             if ep and "GET" in (getattr(sr, "methods", None) or ()) and ep.__module__.startswith("pynmon"):
-                names.add(ep.__module__.split(".")[-1] + "." + ep.__name__)
-    return sorted(names)
+                nparams = len([p for p in inspect.signature(ep).parameters if p != "request"])
+                names.setdefault(ep.__module__.split(".")[-1] + "." + ep.__name__, nparams)
+    return dict(sorted(names.items()))
 
 
 def run(ctx: Ctx) -> None:
@@ -354,10 +356,11 @@ def run(ctx: Ctx) -> None:
     ]
     skip = {"broker.queue_view"}
     covered = []
-    for i, nm in enumerate(names):
+    for i, (nm, nparams) in enumerate(names.items()):
         if nm in skip:
             continue
-        src += HF.replace("__I__", str(i))
+        # parameter choices only where the handler has parameters (c1 drives the 1st, 3rd, ... parameter, c2 the 2nd, 4th, ...)
+        src += HF.replace("__I__", str(i)).replace("__C1MAX__", "6" if nparams >= 1 else "0").replace("__C2MAX__", "6" if nparams >= 2 else "0")
         conds.append(Cond(f"get_{i}", "confirm", 900, keyfn=_key_from_replay, what=f"GET handler {nm}"))
         covered.append(nm)
     ctx.ch_batch("c20", src, conds)
